@@ -46,6 +46,7 @@ func run(rt *rapid.T) {
 	pool := wmkit.GenKeyPool(rt, gen.Uniform(rt, 2, 10, "npool"))
 	unique := wmkit.UniqueValues(rt)
 	counter := 0
+	earlierCycle := false
 	// prefix history
 	for i := gen.Uniform(rt, 0, 14, "prefix"); i > 0; i-- {
 		k := gen.Pct(rt, "pop")
@@ -62,6 +63,24 @@ func run(rt *rapid.T) {
 			if gen.Chance(rt, 60, "pgc") {
 				m.GC()
 			}
+		case k < 96:
+			// an earlier checkpoint / change / commit / rollback cycle in the same object's life
+			if !m.Dirty {
+				keep := map[string]refwmpt.Entry{}
+				for kk, v := range m.Model {
+					keep[kk] = v
+				}
+				m.Logf("SaveRoot (earlier cycle)")
+				m.T.SaveRoot()
+				ki := gen.Uniform(rt, 0, len(pool)-1, "cycleki")
+				m.Update(pool[ki], wmkit.GenValue(rt, ki, &counter, unique))
+				m.Commit(gen.Pick(rt, []int{0, 1, 2, 64}, "cyclelevel"))
+				m.Logf("Rollback (earlier cycle)")
+				m.T.Rollback()
+				m.Model = keep
+				m.Dirty = false
+				earlierCycle = true
+			}
 		default:
 			if !m.Dirty {
 				m.Reload()
@@ -70,6 +89,16 @@ func run(rt *rapid.T) {
 	}
 	if m.Dirty || gen.Chance(rt, 50, "cpcommit") {
 		m.Commit(gen.Pick(rt, []int{0, 1, 2, 64}, "cplevel"))
+	}
+	// directed: now and then everything that is live is removed again and committed, so that the checkpoint is the
+	// empty trie and the batch can bring back exactly what was there before
+	emptied := false
+	if len(m.Model) > 0 && len(m.Model) <= 3 && gen.Chance(rt, 25, "emptyagain") {
+		for _, e := range wmkit.Entries(m.Model) {
+			m.Delete(e.Key)
+		}
+		m.Commit(gen.Pick(rt, []int{0, 1, 64}, "emptylevel"))
+		emptied = true
 	}
 	for j := gen.Uniform(rt, 0, 2, "cpgc"); j > 0; j-- {
 		m.GC()
@@ -100,9 +129,18 @@ func run(rt *rapid.T) {
 	// the batch of changes
 	usedPair := false
 	var kinds []string
+	if emptied && gen.Chance(rt, 70, "bringback") {
+		for m.Resurrect(rt, "bringbackwhich") {
+			kinds = append(kinds, "new-or-changed")
+		}
+	}
 	for i := gen.Uniform(rt, 0, 6, "nchanges"); i > 0; i-- {
 		es := wmkit.Entries(m.Model)
-		switch gen.Pick(rt, []string{"new-key", "change-value", "earlier-value", "same-value", "del-readd", "delete", "hash-prefix-pair"}, "ckind") {
+		switch gen.Pick(rt, []string{"new-key", "change-value", "earlier-value", "same-value", "del-readd", "delete", "hash-prefix-pair", "resurrect", "resurrect"}, "ckind") {
+		case "resurrect":
+			if m.Resurrect(rt, "cres") {
+				kinds = append(kinds, "new-or-changed")
+			}
 		case "hash-prefix-pair":
 			// two new entries whose value records hash to the same first four bytes
 			if a, b := wmkit.CollidingValues(); a != nil && unique && !usedPair && len(pool) >= 2 {
@@ -233,6 +271,8 @@ func run(rt *rapid.T) {
 	add(gcBetween, "gc-between-commit-and-rollback")
 	add(recreated > 0, "re-created-checkpoint-node")
 	add(cpWeight == 0, "empty-checkpoint")
+	add(earlierCycle, "earlier-rollback-cycle-on-the-same-object")
+	add(emptied, "checkpoint-emptied-by-removals")
 	add(cpCopy != nil, "checkpoint-is-a-root-copy")
 	add(len(kinds) == 0, "empty-batch")
 	add(len(created) > 0, "created-new-nodes")
